@@ -17,6 +17,13 @@ func init() {
 
 func (c01) ID() string { return "C01" }
 
+func init() {
+	exhaustive["C01"] = func(tier string) map[string]int {
+		l := c01{}.layout(tier)
+		return map[string]int{"token-string<=3": l.tok * l.tokMul, "curated": l.cur * 8}
+	}
+}
+
 var c01Kinds = []string{"string", "bytes", "reader", "scanner"}
 
 func tokenSpace(maxLen int) int {
